@@ -126,7 +126,7 @@ func (e *exec) point(k opKind, path string) int {
 		return 0
 	}
 	e.calls++
-	if k == kCreate || k == kFileSync || k == kRemove || k == kDirSync {
+	if (k == kCreate || k == kFileSync || k == kRemove || k == kDirSync) && e.calls > e.lastFault {
 		e.capture(fmt.Sprintf("before call %d %v %s", e.calls, k, path))
 	}
 	for _, f := range e.cs.Faults {
@@ -412,7 +412,9 @@ type exec struct {
 	newStates         []uint64
 	viols             []violation
 	label             []string
-	stop              bool
+	// Everything before the last fault position is the same execution as the one with that fault
+	// removed (enumerated and judged on its own): the checks start at the last fault.
+	lastFault int
 }
 
 func (e *exec) allowed() []string {
@@ -545,6 +547,9 @@ func unitNames(units []vfs.VerifCrashUnit, keep []bool) []string {
 // orders (ReadMarker, fresh LocateMarker, RemoveObsolete and a further Move on a copy of the live
 // directory), then the crash images.
 func (e *exec) afterOp() {
+	if e.calls < e.lastFault {
+		return // judged in the execution that shares this prefix
+	}
 	allowed := e.allowed()
 	live := liveCopy(e.mem) // the live directory: everything, synced or not
 	h := live.VerifHash()
@@ -642,6 +647,11 @@ func (e *exec) addMaybe(v string) {
 
 func run(cs Case, verbose bool) *exec {
 	e := &exec{cs: cs, verbose: verbose}
+	if !verbose { // a replay judges the whole execution
+		for _, f := range cs.Faults {
+			e.lastFault = max(e.lastFault, f.Pos)
+		}
+	}
 	e.mem = vfs.NewCrashableMem()
 	if err := e.mem.MkdirAll(dirName, 0o755); err != nil {
 		panic(err)
@@ -833,14 +843,17 @@ type tally struct {
 // explore runs every fault placement of one (script, listing order) and returns through t.
 func explore(c *vlib.Ctx, script []string, desc bool, nf int, t *tally, sample bool) {
 	report := func(e *exec) {
+		for _, h := range e.newStates {
+			c.State(h)
+		}
+		if nf > 1 && len(e.cs.Faults) < nf {
+			return // counted and judged by the plan with fewer faults over the same scripts
+		}
 		t.evals++
 		t.trans += int64(e.calls)
 		t.images += int64(e.images)
 		t.judged += int64(e.imgJudged)
 		t.outcomes[e.outcome()]++
-		for _, h := range e.newStates {
-			c.State(h)
-		}
 		if e.surfaced > 0 {
 			c.Nontrivial(vlib.Hash(e.cs.String()))
 		}
@@ -889,9 +902,6 @@ func explore(c *vlib.Ctx, script []string, desc bool, nf int, t *tally, sample b
 	base := Case{Script: script, ListDesc: desc}
 	e0 := run(base, false)
 	report(e0)
-	if len(e0.viols) > 0 {
-		return
-	}
 	rec(base, 0, e0.calls, nf)
 }
 
@@ -956,7 +966,7 @@ func TestCheck(t *testing.T) {
 				}
 				mu.Unlock()
 			})
-			s := fmt.Sprintf("%d Moves x <=%d faults: %d scripts x listing orders -> %d executions, %d crash images", p.d, p.faults, scriptCount(p.d), pe, pi)
+			s := fmt.Sprintf("%d Moves x %s: %d scripts x listing orders -> %d executions, %d crash images", p.d, map[int]string{1: "0..1 faults", 2: "exactly 2 faults"}[p.faults], scriptCount(p.d), pe, pi)
 			if !complete {
 				c.Incomplete(fmt.Sprintf("budget expired in plan (%d Moves, <=%d faults) after %d of %d (script, listing order) items; earlier plans complete: %v", p.d, p.faults, done, n, scope))
 				scope = append(scope, s+" (INCOMPLETE)")
